@@ -331,13 +331,26 @@ def deco_ok(form, deco, src):
     return True
 
 
-def build_one(ch, u):
+class _First:
+    """chooser that always takes the first option: the representative of a form"""
+
+    def pick(self, n):
+        return 0
+
+    def flag(self):
+        return False
+
+    def choose(self, seq):
+        return seq[0]
+
+
+def build_one(ch, u, rep=False):
     form = FORMS[ch.pick(len(FORMS))]
     if DECO_MODE == 0:
         deco = ""
     else:
         deco = DECOS[ch.pick(len(DECOS))]
-    src, objs, extra = form(ch, u)
+    src, objs, extra = form(_First() if rep else ch, u)
     if not deco_ok(form, deco, src):
         return None
     return deco + src, objs, extra
@@ -351,12 +364,14 @@ def build_program(ch):
     else:
         scope = SCOPES[0]
         ch.pick(len(SCOPES))  # keep the choice positions aligned (value ignored)
-    one = build_one(ch, 1)
+    # pairs: one side ranges over every variation, the other over one representative per form, in both orders
+    order = ch.pick(2) if PAIRS else 0
+    one = build_one(ch, 1, rep=(PAIRS and order == 1))
     if one is None:
         return None
     items = [one]
     if PAIRS:
-        two = build_one(ch, 2)
+        two = build_one(ch, 2, rep=(order == 0))
         if two is None:
             return None
         items.append(two)
@@ -599,10 +614,10 @@ def run(tier):
         chrun.record(ck, r1b, "every single declaration with every ignored decoration before it (global scope)", bound=f"{len(FORMS)} forms x variations x {len(DECOS)} decorations")
         r2 = None
         if tier == "thorough":
-            pair_scopes = [i for i, sc in enumerate(SCOPES) if sc[0] in ("global",)]
-            shards = [(a, b) for a in pair_scopes for b in range(len(FORMS))]
+            pair_scopes = list(range(len(SCOPES)))
+            shards = [(a, o, b) for a in pair_scopes for o in (0, 1) for b in range(len(FORMS))]
             r2 = chrun.run(__name__, "h_decl", shards, timeout=1500, globs=dict(PAIRS=True, LEVEL=-1, DECO_MODE=0), pool=pool)
-            chrun.record(ck, r2, "ordered pairs of declarations", bound="all ordered pairs of single declarations with one representative per variation pool, at global scope (measured ~150 pairs/s; scope composition of sequences is C12)")
+            chrun.record(ck, r2, "ordered pairs of declarations", bound="all ordered pairs of single declarations with one representative per variation pool, next to the first variation of every form, in both orders and every scope (all pairs of full variations were on course for hours; sibling independence in general is C12)")
     finally:
         pool.shutdown()
     for shard, args, kw, msg in rv.counterexamples[:1]:
